@@ -802,3 +802,86 @@ func WriteExtra(id string, parts []*Partial, known []map[string]string, extra ma
 func NewPartial(check string) *Partial {
 	return &Partial{Check: check, Labels: map[string]int64{}, Excluded: map[string]int64{}}
 }
+
+// ---------------------------------------------------------------------------
+// custom engines (C01, C02): their own exploration loop, same accounting
+
+// Custom is a Runner whose exploration is written by hand.
+type Custom struct {
+	Name string
+	Rule string
+	// Body explores and reports through x.
+	Body func(t *testing.T, x *Ctx)
+	// Replay re-executes one saved case (the "case" member of a replay file).
+	Replay func(t *testing.T, raw json.RawMessage, x *Ctx) error
+}
+
+// Ctx is what a Custom body uses to account for what it did.
+type Ctx struct {
+	M      *Main
+	P      *Partial
+	name   string
+	ntSeen int64
+}
+
+func (c *Custom) name() string { return c.Name }
+
+func (c *Custom) run(t *testing.T, m *Main) *Partial {
+	x := &Ctx{M: m, P: &Partial{Check: c.Name, Rule: c.Rule, Labels: map[string]int64{}, Excluded: map[string]int64{}}, name: c.Name}
+	if m.Cfg.Mode == "" || m.Cfg.Mode == "enum" {
+		c.Body(t, x)
+	}
+	return x.P
+}
+
+func (c *Custom) replayFile(t *testing.T, m *Main, path string, probing bool) (error, error) {
+	raw, err := os.ReadFile(path)
+	if err != nil {
+		return nil, err
+	}
+	var doc replayDoc
+	if err := json.Unmarshal(raw, &doc); err != nil {
+		return nil, fmt.Errorf("%s: %v", path, err)
+	}
+	if c.Replay == nil {
+		return nil, fmt.Errorf("check %s cannot replay", c.Name)
+	}
+	x := &Ctx{M: m, P: &Partial{Check: c.Name, Labels: map[string]int64{}, Excluded: map[string]int64{}}, name: c.Name}
+	return c.Replay(t, doc.Case, x), nil
+}
+
+// Progress tells the watchdog which case is running.
+func (x *Ctx) Progress(c any) {
+	x.M.current.Store(&curCase{check: x.name, c: c})
+	x.M.progress.Add(1)
+}
+
+// Violation records a failed case and writes its replay file; it returns the path.
+func (x *Ctx) Violation(c any, msg, source string) string {
+	b := caseJSON(c)
+	dir := filepath.Join(x.M.Cfg.Root, "replays", x.M.Cfg.ID)
+	os.MkdirAll(dir, 0o755)
+	path := filepath.Join(dir, fmt.Sprintf("fail-%s-%016x.json", x.name, hashBytes(b)))
+	doc := replayDoc{Property: x.M.Cfg.ID, Check: x.name, Message: firstLines(msg, 12), Case: b}
+	out, _ := json.MarshalIndent(doc, "", " ")
+	os.WriteFile(path, append(out, '\n'), 0o644)
+	x.P.Violations = append(x.P.Violations, Violation{Check: x.name, Replay: path, Message: firstLines(msg, 12), Source: source})
+	fmt.Printf("RAW-VIOLATION property=%s check=%s source=%s replay=%s\n  %s\n", x.M.Cfg.ID, x.name, source, path,
+		strings.ReplaceAll(firstLines(msg, 12), "\n", "\n  "))
+	return path
+}
+
+// Sample keeps a few cases for the evidence file.
+func (x *Ctx) Sample(c any, labels ...string) {
+	x.ntSeen++
+	n := x.ntSeen
+	if (n == 1 || n == 7 || n == 50 || n == 400 || n == 3000 || n == 20000) && len(x.P.Samples) < 8 {
+		x.P.Samples = append(x.P.Samples, map[string]any{"check": x.name, "case": json.RawMessage(caseJSON(c)), "labels": labels})
+	}
+}
+
+// KF reports whether the carve-out of an open known finding is in force.
+func (x *Ctx) KF(id string) bool { return x.M.active[id] }
+
+// Hash is the 64-bit FNV hash used for distinct counting.
+func Hash(b []byte) uint64 { return hashBytes(b) }
